@@ -632,6 +632,7 @@ theorem c10_v2_transaction_no_panic_partial (ms : Mid) (t : Txn2) (mw : Nat)
   · simp
   refine bind_noPanic (validateV2CurrencyOverflow_noPanic t) (fun u hov => ?_)
   cases u
+  refine bind_noPanic (validateV2TaxPool_noPanic ms t) (fun _ _ => ?_)
   split
   · simp
   split
